@@ -56,7 +56,7 @@ Lin(p) == /\ pend[p].s = "inv"
           /\ LET c == pend[p].c
                  r == IF c.r.t = "missing" /\ c.op \in {"add", "close", "clear"} THEN [t |-> "none"] ELSE c.r IN
              /\ CanLin(st, c, r, InFlight)
-             /\ st' = Effect(st, c)
+             /\ st' \in Effects(st, c)
              /\ pend' = [pend EXCEPT ![p] = [s |-> "lin", r |-> r, op |-> c.op]]
           /\ UNCHANGED <<l, nadd, nrem>>
 
@@ -78,10 +78,15 @@ Ret == /\ l <= Len(Trace) /\ Trace[l].e = "ret"
 \* the end of a history that did not run to completion (a forced schedule whose
 \* model state is stuck, a free-running program stopped by the watchdog): a
 \* RemoveHead that never returned is rightly blocked only if, in some
-\* explanation of the history, the queue is empty and open at the end
+\* explanation of the history, the queue is empty and open at the end; an
+\* AddValue that never returned only if the queue is full without it
 End == /\ l <= Len(Trace) /\ Trace[l].e = "end"
-       /\ \A p \in Procs : IF pend[p].s = "inv" THEN (pend[p].c.op = "rem" => (st.q = <<>> /\ ~st.closed))
-                            ELSE IF pend[p].s = "lin" THEN pend[p].op # "rem"   \* a removal that took effect must have returned
+       /\ \A p \in Procs : IF pend[p].s = "inv"
+                            THEN /\ pend[p].c.op = "rem" => (st.q = <<>> /\ ~st.closed)
+                                 /\ pend[p].c.op = "add" => Len(st.q) >= st.cap
+                                 /\ pend[p].c.op \in {"rem", "add"}      \* nothing else ever waits
+                            ELSE IF pend[p].s = "lin"
+                            THEN pend[p].op = "add" /\ Len(st.q) > st.cap   \* anything else that took effect must have returned
                             ELSE TRUE
        /\ l' = l + 1 /\ UNCHANGED <<st, pend, nadd, nrem>>
 
